@@ -141,7 +141,7 @@ int main(int argc, char** argv) {
     heapacct::on = false;
     int heap = heapacct::n - (sched.capacity() > 15 ? 1 : 0);
     if (getenv("VERIF_HEAPDBG")) for (int i = 0; i < heapacct::n; ++i) std::fprintf(stderr, "leftover block %p size %zu\n", heapacct::live[i], malloc_usable_size(heapacct::live[i]));
-    vrt::ev("{\"e\":\"End\",\"live\":%zu,\"bad\":%zu,\"heap\":%d,\"root\":%d}", live, bad, heap, root);
+    vrt::ev("{\"e\":\"End\",\"live\":%zu,\"bad\":%zu,\"heap\":%d,\"root\":%d,\"asr\":0}", live, bad, heap, root);
     if (out) std::fprintf(out, "{\"x\":%ld,\"k\":%ld,\"scn\":%d,\"root\":%d,\"live\":%zu,\"heap\":%d,\"sched\":%s}\n", x, k, sc["id"].get<int>(), root, live, heap, sched.c_str());
     ++execs;
     distinct.insert(std::to_string(x) + sched);
